@@ -60,3 +60,23 @@ Theorem c06_visit_item_reads_are_source :
   [("nItemLoc.read", [GVar "t"; GVar "false"]); ("nItemLoc.read", [GVar "t"; GVar "withValue"])].
 Proof. exact DecVisit.visit_item_reads. Qed.
 Print Assumptions c06_visit_item_reads_are_source.
+
+From GK Require Import DecEvict.
+(* a visit drops the cached items of the nodes it leaves WHOLE, never modifying an item other versions may share *)
+Theorem c06_visit_evicts_whole_items_is_source :
+  In "func(evictNode *node) {  if i := evictNode.Evict(); i != nil {   o.ItemDecRef(t, i)  } }" (calls 400 (body "Store.visitNodes")) /\
+  (exists c, hd_error (conds 400 (body "Store.visitNodes")) = Some c) /\
+  count_occ string_dec (calls 400 (body "Store.visitNodes")) "nNode.Evict" = 0%nat /\
+  List.length (List.filter (has_sub "Evict") (calls 400 (body "Store.visitNodes"))) = 1%nat.
+Proof. exact DecEvict.visit_evicts_whole_items. Qed.
+Print Assumptions c06_visit_evicts_whole_items_is_source.
+
+Theorem c06_node_evict_is_source :
+  body "node.Evict" =
+    [SIf [] (GUn "!" (GCall "n.item.Loc().isEmpty" []))
+       [SAssign [GVar "i"] ":=" [GCall "n.item.Item" []];
+        SIf [] (GBin "&&" (GBin "!=" (GVar "i") GNil) (GCall "n.item.casItem" [GVar "i"; GNil]))
+          [SReturn [GVar "i"]] []] [];
+     SReturn [GNil]].
+Proof. exact DecEvict.node_evict_is_whole. Qed.
+Print Assumptions c06_node_evict_is_source.
